@@ -9,6 +9,8 @@ CONSTANTS
   HalfMax = 2
   Callers = {"c1", "c2", "c3"}
   Outcomes = {"ok", "fail", "cancel", "deadline", "panic"}
+  SplitAcquire = FALSE
+  Defects = {}
   MaxNow = 0
   MaxCount = 0
   Depth = 40
